@@ -214,6 +214,10 @@ def c12(ctx, rep):
     rep.trust("re.sub copies text outside matches verbatim", "file.readlines() returns every line with its terminator; str.split() with no argument splits on whitespace runs and drops empty tokens")
     rep.assume("the slice arithmetic inside _split_line (string identity over all lines) is not decided, only its shape")
     line_loop_rules(ctx, rep, "C12")
+    stream_open_rule(ctx, rep, "C12")
+    from . import checks_rx as _rx, checks_misc as _misc
+    import_clauses(ctx, rep, "C12", "C06", _rx.c06, ("C06.ipv6-match-is-address-text", "C06.ipv6-selected-parseable"))
+    import_clauses(ctx, rep, "C12", "C14", _misc.c14, ("C14.K2-",))  # an exception inside the line loop drops the rest of the file
     split_line_shape(ctx, rep, "C12")
     from . import secret_rmi, secret_struct, checks_secret, checks_ip, checks_rx
     from .ipmodel import IpModel
@@ -223,6 +227,20 @@ def c12(ctx, rep):
     checks_ip._undo_threading(ctx, m, rep, "C12")
     _word_and_as_shapes(ctx, rep, "C12")
     checks_secret._enclosing_lists(ctx, rep, "C12")
+
+
+def import_clauses(ctx, rep, cl, pid, fnc, keep, **kw):
+    """Re-run another property's check on a scratch report and adopt the named clauses (prefix match) under this property's name."""
+    from .report import Report
+    sub = Report(pid, quiet=True)
+    fnc(ctx, sub, **kw)
+    n = 0
+    for o in sub.obligations:
+        if any(o["clause"] == k or o["clause"].startswith(k) for k in keep):
+            n += 1
+            tail = o["clause"].split(".", 1)[1]
+            rep.ob(cl + "." + tail, o["construct"], o["ok"], o["detail"], o["where"], o.get("witness"), key="%s.%s|%s" % (cl, tail, o["construct"]))
+    rep.ob(cl + ".imported-" + pid, pid, n >= 1, "clauses adopted from %s: %d (%s)" % (pid, n, ", ".join(keep)), "", nontrivial=False)
 
 
 def _word_and_as_shapes(ctx, rep, cl):
@@ -243,6 +261,42 @@ STAGE_OPTIONS = {
     "anonymizer4": {("param", "anon_ip"), ("param", "undo_ip_anon")}, "anonymizer6": {("param", "anon_ip"), ("param", "undo_ip_anon")},
     "anonymizer_as_num": {("param", "as_numbers")},
 }
+
+
+def stream_open_rule(ctx, rep, cl):
+    """Text goes in and out unchanged apart from the replacements: the streams handed to anonymize_io are opened with a plain mode ('r' / 'w'),
+    without error substitution (errors=), without newline translation overrides (newline=), and with the same encoding on both sides
+    (none given = the same default on both).  Any other open() keyword on these streams is reported: it changes which characters or
+    line boundaries the stages see, or what is written back."""
+    p, A = ctx.p, ctx.A
+    n = 0
+    for f in (p.find_function("anonymize_files"), p.find_function("FileAnonymizer.anonymize_file")):
+        rep.analysed(f)
+        seen = set()
+        for path in A.paths(f).paths:
+            if not path.feasible():
+                continue
+            for e, ls in walk_effects(path.effects):
+                if e.kind != "call" or M.callee_name(e.a) != "anonymize_io":
+                    continue
+                opens = [a for a in e.a[2] if M.is_call(a) and a[1] == ("builtin", "open")]
+                key = tuple(show(a) for a in opens)
+                if key in seen or len(opens) != 2:
+                    continue
+                seen.add(key)
+                n += 1
+                encs = []
+                for a in opens:
+                    kws = dict(a[3])
+                    mode = open_mode(a)
+                    extra = sorted(k for k in kws if k not in ("mode", "encoding"))
+                    rep.ob(cl + ".stream-open-plain", "%s:%s" % (f.name, mode), not extra and mode in ("r", "w", "rt", "wt") and len(a[2]) <= 2,
+                           "open(%s) uses %s; expected only a path and the mode %s (errors= hides undecodable input, newline= changes what a line is, buffering/opener are not reviewed)" % (show(a)[5:60], extra or "mode %r" % mode, "'r'/'w'"),
+                           W(f, e.node), key="%s.stream-open-plain|%s:%s" % (cl, f.name, mode[:1]))
+                    encs.append(show(kws["encoding"]) if "encoding" in kws else None)
+                rep.ob(cl + ".stream-encoding-symmetric", f.name, len(set(encs)) == 1, "input is decoded with %s and output encoded with %s; non-ASCII text outside the replaced items must come back as it went in" % (encs[0], encs[-1]), W(f, e.node),
+                       key="%s.stream-encoding-symmetric|%s" % (cl, f.name))
+    rep.ob(cl + ".stream-opens-found", "entry points", n >= 2, "anonymize_io call sites with two freshly opened streams: %d (anonymize_files, anonymize_file)" % n, "", nontrivial=False)
 
 
 def independent_wiring(ctx, rep, cl, only=None):
@@ -309,6 +363,9 @@ def c15(ctx, rep):
     paths = [x for x in fp.paths if x.feasible() and x.kind != "raise"]
     rep.stat("constructor_paths", len(paths))
     independent_wiring(ctx, rep, "C15")
+    from . import checks_rx as _rx, checks_secret as _sec
+    import_clauses(ctx, rep, "C15", "C11", _rx.c11, ("C11.wiring",))
+    import_clauses(ctx, rep, "C15", "C10", _sec.c10, ("C10.wiring",))
     option_of = STAGE_OPTIONS
     params = {("param", x) for x in f_fa.params}
     # default None
@@ -601,6 +658,7 @@ def c16(ctx, rep):
     from .checks_ip import _private_merge
     from .ipmodel import IpModel
     _private_merge(ctx, IpModel(ctx), rep, "C16")
+    stream_open_rule(ctx, rep, "C16")
     rep.ob("C16.entry-points-agree", "open() arguments", len(sig) == 2 and len(set(sig.values())) == 1, "open() modes/options used by the entry points: %s; they must be identical (encoding, newline handling)" % sig, W(f_file), key="C16.entry-points-agree|open-arguments")
     if sig:
         rep.ob("C16.open-modes", "open() arguments", all(v[0][0] == "r" and v[1][0] == "w" for v in sig.values()), "input opened 'r', output opened 'w': %s" % sig, W(f_file))
@@ -876,6 +934,8 @@ def c19(ctx, rep):
                 rep.ob("C19.binding", "anonymize_files:%s" % prm, b.get(prm) == ("param", prm), "FileAnonymizer(%s=%s); expected the parameter of the same role" % (prm, show(b.get(prm))), cs.where, key="C19.binding|anonymize_files:%s" % prm)
     # 8. private addresses
     _private_merge(ctx, IpModel(ctx), rep, "C19")
+    from .checks_ip import option_spec_rule
+    option_spec_rule(ctx, rep, "C19")
     # log level wiring
     lvl = opts.get("--log-level")
     rep.ob("C19.log-level-choices", "--log-level", lvl is not None and lvl["choices"][0] == "ok" and isinstance(lvl["choices"][1], (list, tuple)) and list(lvl["choices"][1]) == ["DEBUG", "INFO", "WARNING", "ERROR", "CRITICAL"], "log level choices %s" % (lvl["choices"] if lvl else None,), lvl["where"] if lvl else "", nontrivial=False)
